@@ -1,6 +1,6 @@
 (* The specification used by the judge agrees with the model of the strict parser. *)
 From CSL Require Import Base.Prelude Cbor.Head Addr.VarNat Addr.VarNatProofs Addr.Crc32 Addr.Byron Addr.Base58 Addr.Base58Proofs
-  Addr.Shelley Addr.ShelleyProofs Addr.Bech32Iface Addr.Check.
+  Addr.Shelley Addr.ShelleyProofs Addr.Bech32Iface Addr.TextProofs Addr.Check.
 Local Open Scope N_scope.
 
 (* the strict parser accepts exactly the byte strings the header table + exact lengths allow *)
@@ -57,4 +57,116 @@ Proof.
   intros Hok Hne. unfold judge_b58, model_b58. cbn [snd].
   rewrite base58_roundtrip by assumption. destruct bs; [congruence|].
   cbn [res_eqb]. now rewrite bytes_eqb_refl.
+Qed.
+
+(* ================= the judge accepts what the model observes (case `dec`) ================= *)
+Lemma cred_eqb_refl c : cred_eqb c c = true.
+Proof. destruct c; cbn; apply bytes_eqb_refl. Qed.
+Lemma opt_eqb_refl {A} (eqb : A -> A -> bool) (H : forall x, eqb x x = true) o : opt_eqb eqb o o = true.
+Proof. destruct o; cbn; auto. Qed.
+Lemma res_eqb_refl {A} (eqb : A -> A -> bool) (H : forall x, eqb x x = true) r : res_eqb eqb r r = true.
+Proof. destruct r; cbn; auto. Qed.
+Lemma byron_eqb_refl b : byron_eqb b b = true.
+Proof.
+  unfold byron_eqb, byron_type_eqb. rewrite bytes_eqb_refl, N.eqb_refl.
+  rewrite (opt_eqb_refl bytes_eqb bytes_eqb_refl), (opt_eqb_refl N.eqb N.eqb_refl). reflexivity.
+Qed.
+Lemma address_eqb_refl a : address_eqb a a = true.
+Proof.
+  destruct a as [n p s|n p q|n p|n p|b|m]; cbn [address_eqb];
+    rewrite ?N.eqb_refl, ?cred_eqb_refl, ?bytes_eqb_refl; try reflexivity. apply byron_eqb_refl.
+Qed.
+
+Lemma acc_agrees_of_header a data : agrees_with_header a data = true -> acc_agrees (accessors a) data = true.
+Proof.
+  intros H. destruct data as [|h payload]; [discriminate|].
+  pose proof (classify_accessors a h payload H) as C. unfold acc_agrees, accessors. cbn [a_kind a_net a_pay].
+  destruct (classify_header h) as [ps ss|ps|ps|ps| |].
+  - destruct C as (K & Nn & P & _). rewrite K, Nn, P. cbn [res_eqb opt_eqb kind_code].
+    rewrite !N.eqb_refl. change (cred_of ps (firstn 28 payload)) with (mk_cred ps (firstn 28 payload)).
+    now rewrite cred_eqb_refl.
+  - destruct C as (K & Nn & P). rewrite K, Nn, P. cbn [res_eqb opt_eqb kind_code].
+    rewrite !N.eqb_refl. change (cred_of ps (firstn 28 payload)) with (mk_cred ps (firstn 28 payload)).
+    now rewrite cred_eqb_refl.
+  - destruct C as (K & Nn & P). rewrite K, Nn, P. cbn [res_eqb opt_eqb kind_code].
+    rewrite !N.eqb_refl. change (cred_of ps (firstn 28 payload)) with (mk_cred ps (firstn 28 payload)).
+    now rewrite cred_eqb_refl.
+  - destruct C as (K & Nn & P). rewrite K, Nn, P. cbn [res_eqb opt_eqb kind_code].
+    rewrite !N.eqb_refl. change (cred_of ps (firstn 28 payload)) with (mk_cred ps (firstn 28 payload)).
+    now rewrite cred_eqb_refl.
+  - destruct C as (K & P). rewrite K, P. reflexivity.
+  - destruct C.
+Qed.
+
+(* the only failures the judge can report on the model's own observations are the known classes *)
+Definition known_only (v : verdict) : Prop := v = Holds \/ exists c, c <> 0 /\ v = Fails c.
+
+Lemma combine_known a b : known_only a -> known_only b -> known_only (combine a b).
+Proof.
+  intros [->|(c & Hc & ->)] [->|(d & Hd & ->)]; cbn [combine].
+  - now left.
+  - right; eauto.
+  - right; eauto.
+  - destruct (c =? 0) eqn:E; [lia|]. destruct (d =? 0) eqn:E2; [lia|]. right; eauto.
+Qed.
+
+Theorem judge_dec_accepts_model data : bytes_ok data -> N.of_nat (length data) < 4611686018427387904 ->
+  known_only (judge_dec data (model_dec data)).
+Proof.
+  intros Hok HL. unfold judge_dec. apply combine_known.
+  - (* strict half *)
+    unfold judge_dec_strict, model_dec. cbn [d_strict d_acc d_reparsed d_reward].
+    pose proof (strict_accepts_iff data Hok) as Hspec.
+    destruct (from_bytes data) as [a| | |] eqn:S.
+    + left. cbn [is_ok] in Hspec. rewrite <- Hspec.
+      rewrite (classify_parsed false data a Hok S).
+      rewrite (acc_agrees_of_header a data (classify_parsed false data a Hok S)).
+      rewrite (res_eqb_refl N.eqb N.eqb_refl).
+      rewrite (reparse_same false data a Hok HL S), (res_eqb_refl address_eqb address_eqb_refl).
+      unfold reward_address_decode. rewrite S.
+      destruct a; cbn [andb]; rewrite ?(res_eqb_refl address_eqb address_eqb_refl); reflexivity.
+    + left. cbn [is_ok] in Hspec. rewrite <- Hspec. unfold reward_address_decode. rewrite S. reflexivity.
+    + right. exists cls_huge. split; [discriminate|]. unfold panic_class.
+      destruct (known_huge_length data) eqn:K; [reflexivity|].
+      destruct (strict_total data K) as [E|[a E]]; congruence.
+    + right. exists cls_huge. split; [discriminate|]. unfold panic_class.
+      destruct (known_huge_length data) eqn:K; [reflexivity|].
+      destruct (strict_total data K) as [E|[a E]]; congruence.
+  - (* embedded half *)
+    unfold judge_dec_embedded, model_dec. cbn [d_embedded d_emb_bytes].
+    destruct (embedded_decode data) as [a| | |] eqn:E.
+    + destruct (bytes_eqb (to_bytes a) data) eqn:B; [now left|]. right.
+      exists (lenient_class data). split; [|reflexivity]. unfold lenient_class.
+      destruct (known_trailing data) eqn:K1; [discriminate|].
+      destruct (known_padded_pointer data) eqn:K2; [discriminate|].
+      destruct (known_noncanonical_byron data) eqn:K3; [discriminate|].
+      rewrite (embedded_verbatim data a Hok K1 K2 K3 E), bytes_eqb_refl in B. discriminate.
+    + exfalso. unfold embedded_decode in E. destruct (from_bytes_internal true data); discriminate.
+    + right. exists cls_huge. split; [discriminate|]. unfold panic_class.
+      destruct (known_huge_length data) eqn:K; [reflexivity|].
+      destruct (embedded_total data K) as [a Ea]. congruence.
+    + right. exists cls_huge. split; [discriminate|]. unfold panic_class.
+      destruct (known_huge_length data) eqn:K; [reflexivity|].
+      destruct (embedded_total data K) as [a Ea]. congruence.
+Qed.
+
+(* and on what the writer produced the judge simply says Holds *)
+Theorem judge_dec_holds_on_written a : wf_address a -> N.of_nat (length (to_bytes a)) < 4611686018427387904 ->
+  judge_dec (to_bytes a) (model_dec (to_bytes a)) = Holds.
+Proof.
+  intros Hwf HL. pose proof (to_bytes_ok a Hwf) as Hok.
+  destruct (judge_dec_accepts_model _ Hok HL) as [H|(c & Hc & H)]; [exact H|exfalso].
+  unfold judge_dec in H.
+  assert (HS : judge_dec_strict (to_bytes a) (model_dec (to_bytes a)) = Holds).
+  { unfold judge_dec_strict, model_dec. cbn [d_strict d_acc d_reparsed d_reward].
+    pose proof (address_roundtrip a Hwf) as S. pose proof (strict_accepts_iff _ Hok) as Hspec.
+    rewrite S in *. cbn [is_ok] in Hspec. rewrite <- Hspec.
+    rewrite (classify_parsed false _ a Hok S), (acc_agrees_of_header a _ (classify_parsed false _ a Hok S)).
+    rewrite (res_eqb_refl N.eqb N.eqb_refl), S, (res_eqb_refl address_eqb address_eqb_refl).
+    unfold reward_address_decode. rewrite S.
+    destruct a; cbn [andb]; rewrite ?(res_eqb_refl address_eqb address_eqb_refl); reflexivity. }
+  assert (HE : judge_dec_embedded (to_bytes a) (model_dec (to_bytes a)) = Holds).
+  { unfold judge_dec_embedded, model_dec. cbn [d_embedded d_emb_bytes].
+    rewrite (embedded_roundtrip a Hwf), bytes_eqb_refl. reflexivity. }
+  rewrite HS, HE in H. discriminate.
 Qed.
